@@ -190,6 +190,7 @@ class OptimizerGeneric:
                                        bounds=bounds,
                                        options=options,
                                        tol=tol)
+        self._apply_solution(result.x)
         return result
 
     def undo(self):
@@ -201,6 +202,19 @@ class OptimizerGeneric:
             for idvar, var in enumerate(self.problem.variables):
                 var.update(x0[idvar])
             self._x.pop(-1)
+
+    def _apply_solution(self, x):
+        """
+        Leave the optics in the state of the returned solution. The external
+        optimizer may evaluate other points after the one it returns (or
+        evaluate in worker processes only), so the solution is set explicitly.
+
+        Args:
+            x (array-like): The solution returned by the optimizer.
+        """
+        for idvar, var in enumerate(self.problem.variables):
+            var.update(x[idvar])
+        self.problem.update_optics()
 
     def _fun(self, x):
         """
@@ -282,6 +296,7 @@ class LeastSquares(OptimizerGeneric):
                                             max_nfev=maxiter,
                                             verbose=verbose,
                                             ftol=tol)
+        self._apply_solution(result.x)
         return result
 
 
@@ -324,6 +339,7 @@ class DualAnnealing(OptimizerGeneric):
                                              bounds=bounds,
                                              maxiter=maxiter,
                                              x0=x0)
+        self._apply_solution(result.x)
         return result
 
 
@@ -386,4 +402,5 @@ class DifferentialEvolution(OptimizerGeneric):
                                                      disp=disp,
                                                      updating=updating,
                                                      workers=workers)
+        self._apply_solution(result.x)
         return result
